@@ -7,7 +7,7 @@ from . import sysutil as U
 
 PROP = "C02"
 PROPS_FILE = "theories/Props/C02.v"
-THEOREMS = ["c02_split_lossless", "c02_row_is_rhs", "c02_row_of_function_of_time", "c02_lower_rows", "c02_subsystem_lossless", "c02_numeric_update_is_rhs"]
+THEOREMS = ["c02_split_lossless", "c02_row_is_rhs", "c02_row_of_function_of_time", "c02_lower_rows", "c02_subsystem_lossless", "c02_numeric_update_is_rhs", "c02_system_rows"]
 GEN_FILES = []
 TRUSTED = ["Coq 8.16.1 kernel + vm_compute",
            "theorems closed under the global context; stated in an arbitrary commutative ring (ring_theory hypothesis) with pw a 1 = a",
